@@ -55,6 +55,6 @@ def sourceHashes : List (String × String) :=
 end YaegiVerif.Generated.C17
 `, common.LeanStrList(keys("knownOs")), common.LeanStrList(keys("knownArch")),
 			common.HashTable(fset, f, [][2]string{{"Interpreter", "buildOk"}, {"", "buildLineOk"}, {"", "buildOptionOk"},
-				{"", "buildTagOk"}, {"", "goMinorVersion"}, {"", "contains"}, {"", "skipFile"}})), nil
+				{"", "buildTagOk"}, {"", "goMinorVersion"}, {"", "contains"}, {"", "skipFile"}, {"", "matchOsArch"}})), nil
 	})
 }
